@@ -416,7 +416,7 @@ struct PcapEng {
         std::string key = std::to_string(dlt) + "|" + e; auto it = cache.find(key);
         if (it == cache.end()) {
             if (cache.size() > 6000) { for (auto& kv : cache) pcap_freecode(&kv.second); cache.clear(); }
-            bpf_program bp; if (pcap_compile(p, &bp, e.c_str(), 1, PCAP_NETMASK_UNKNOWN) != 0) { cnt("bpf_compile_failed"); if (want_sample()) sample("pcap_compile failed: " + e + " :: " + pcap_geterr(p)); return -1; }
+            bpf_program bp; if (pcap_compile(p, &bp, e.c_str(), 1, PCAP_NETMASK_UNKNOWN) != 0) { cnt("bpf_compile_failed"); violation("harness/pcap-compile", "pcap_compile rejected '" + e + "' for dlt " + std::to_string(dlt) + ": " + pcap_geterr(p)); return -1; }
             cnt("bpf_programs_compiled"); it = cache.emplace(key, bp).first;
         }
         pcap_pkthdr h; memset(&h, 0, sizeof h); h.caplen = h.len = (bpf_u_int32)y.size();
@@ -745,7 +745,9 @@ struct Hist {
         size_t n = s.ls.size(); if (!last_ok || n < 2 || s.ls[n - 1].k != RAWK || s.ls[n - 1].raw.size() < 2) return false; const L& q = s.ls[n - 2]; size_t f;
         if (q.k == TCPK) f = q.off + 16; else if (q.k == UDPK) f = q.off + 6; else if ((q.k == ICMP4 && !icmp4_ext_ok(q.v[0])) || (q.k == ICMP6K && q.v[0] >= 128)) f = q.off + 2; else return false;
         if (n < 3 || (s.ls[n - 3].k != IP4 && s.ls[n - 3].k != IP6K)) return false;
-        u32 c = be16(y, f); if (q.k == UDPK && c == 0xffff) return false; Bytes& b = s.ls[n - 1].raw; u32 w = (b[0] << 8) | b[1]; u16 nw = fold((u64)w + c); b[0] = nw >> 8; b[1] = nw & 0xff; set_raw(n - 1); note("zero-sum word"); return true;
+        u32 c = be16(y, f); if (q.k == UDPK && c == 0xffff) return false; Bytes& b = s.ls[n - 1].raw; u32 w = (b[0] << 8) | b[1];
+        u32 t = r.chance(1, 2) ? 0xffff : 1 + r.below(6);       // target folded sum: 0xffff (checksum 0) or a tiny value (the unfolded sum then needs a second end-around carry)
+        u16 nw = fold((u64)w + c + t); b[0] = nw >> 8; b[1] = nw & 0xff; set_raw(n - 1); note("steer sum to " + N(t)); return true;
     }
     // scramble the derived fields on the wire, parse, serialize again: everything derived must be recomputed
     bool m_reparse() {
